@@ -251,9 +251,9 @@ Definition crash_class (ops : list (option pop)) (refs : list snap) (pts : list 
       else
         (* known finding C04-deletedata-not-atomic: process death between the deletion of an
            instance's key-values and the save of the repo without it *)
-        match is_meta, nth_error ops (j - 1) with
-        | false, Some (Some (PDeleteData _ _)) => 6%nat
-        | _, _ => 5%nat
+        match nth_error ops (j - 1) with
+        | Some (Some (PDeleteData _ _)) => 6%nat
+        | _ => 5%nat
         end
     end) pts 0%nat.
 
